@@ -33,7 +33,9 @@ Apply(e) ==
       [] e.ev = "ctxobs"  -> PCtxObs(e.f, e.done)
       [] e.ev = "quiet"   -> PQuiet(e.blocked)
       [] e.ev = "final"   -> PFinal
-      [] e.ev \in {"leak", "note", "end", "spin"} -> UNCHANGED pvars
+      [] e.ev = "reuse"   -> PReuse(e.counts)
+      [] e.ev = "spin" -> PSpin
+      [] e.ev \in {"leak", "note", "end"} -> UNCHANGED pvars
       \* controller-level events of traces recorded with -logsteps (judged by CCallXTrace.tla only)
       [] e.ev \in {"step", "scen", "teardown"} -> UNCHANGED pvars
       [] OTHER            -> /\ bad' = bad \cup {"Unexplained"}
